@@ -130,7 +130,9 @@ def families(tier):
         parts = parts_product(kf=(0, 1), fk=range(4), c1=range(3), fin=(0, 1)) + parts_product(kf=(2,), fk=(1,), c1=range(3), fin=(0, 1))
     else:
         pre += ["c3 == 3", "b3 == 0", "b1 <= 1", "b2 <= 1", "fi <= 1", "1 <= c2 <= 2 or c2 == 4", "c1 <= 2 or c1 == 4"]
-        parts = parts_product(kf=(0, 1), cb=(1, 2), fk=range(4), c1=range(3), fin=(0, 1), size=(1, 2, 3)) + \
-            parts_product(kf=(2,), cb=(1, 2), fk=(1,), c1=range(3), fin=(0, 1), size=(1, 2, 3))
+        # sized to finish inside the wall budget: pool sizes 1 and 2 (3 adds nothing a 2-sized pool with three tasks does not show)
+        pre += ["size <= 2"]
+        parts = parts_product(kf=(0, 1), cb=(1, 2), fk=range(4), c1=range(3), fin=(0, 1), size=(1, 2)) + \
+            parts_product(kf=(2,), cb=(1, 2), fk=(1,), c1=range(3), fin=(0, 1), size=(1, 2))
     return [Family(name="fault", fn="tpl_fault", params=P, pre=pre, parts=parts,
                    twin_pre=["kf == 0", "fk == 0", "c1 == 1", "fin == 0", "cb == 2"], twin_args=[2, 0, 2, 0, 0, 1, 0, 1, 1, 3, 0, 0, 0])]
